@@ -191,6 +191,10 @@ type addFn func(rule, detail string, feat map[string]string)
 func checkFraming(ix *index, add addFn) {
 	for i := range ix.tr {
 		r := &ix.tr[i]
+		if r.Kind == "connstat" && strings.Contains(r.S, "writedead=false") && !strings.Contains(r.S, "wbuf=0 ") {
+			add("interleaved", fmt.Sprintf("conn %d: bytes that are not a whole packet were left on the wire although every Write completed (%s)", r.Conn, r.S), nil)
+			return
+		}
 		if r.Kind == "txbad" {
 			add("wire-undecodable", fmt.Sprintf("conn %d packet %d: %s", r.Conn, r.N, r.S), nil)
 			return
